@@ -394,7 +394,7 @@ def real_found(ctx):
 
 def run(ctx):
     binp = build_harness(ctx)
-    msgs, spans = regen(ctx, ["spectrum", "efficiencies", "pm_integrand", "grid", "hom", "schmidt"])
+    msgs, spans = regen(ctx, ["spectrum", "efficiencies", "pm_integrand", "grid", "hom"])
     keys = ("phasematch", "jsa", "utils", "math", "beam", "spdc::efficiencies")
     ctx.cov["translated_spans"] = {k: v for k, v in spans.items() if k.startswith(keys)}
     for m in msgs:
